@@ -278,41 +278,45 @@ def _verbatim(ctx, loader):
 
 def _stamp_source(func, value, stamp, want, defs):
     """``stamp`` (<m>.ctime) is read from the metadata returned by
-    backend.get_with_metadata(<want node>) in the statement before."""
+    backend.get_with_metadata(<want node>): every binding of <m> in the
+    routine is the second element of such a read (by data flow - the read
+    may sit in a try block of its own, the conversion after it)."""
     meta = stamp.rsplit('.', 1)[0]
-    for block in ast.walk(func.node):
-        for field in ('body', 'orelse', 'finalbody'):
-            body = getattr(block, field, None)
-            if not isinstance(body, list):
-                continue
-            for idx, stmt in enumerate(body):
-                if not (isinstance(stmt, ast.Assign) and
-                        stmt.value is value):
-                    continue
-                if idx > 0:
-                    prev = body[idx - 1]
-                elif field == 'orelse' and isinstance(block, ast.Try) and \
-                        block.body:
-                    prev = block.body[-1]       # try: read  else: convert
-                else:
-                    continue
-                if not (isinstance(prev, ast.Assign) and
-                        isinstance(prev.targets[0], ast.Tuple) and
-                        len(prev.targets[0].elts) == 2 and
-                        N.txt(prev.targets[0].elts[1]) == meta and
-                        isinstance(prev.value, ast.Call) and
-                        K.is_meth(prev.value, 'get_with_metadata') and
-                        prev.value.args):
-                    return False
-                node = prev.value.args[0]
-                leaves = [node] if not isinstance(node, ast.Name) else \
-                    M.leaf_defs(defs, node.id) or [node]
-                texts = set(N.txt(v) for v in leaves) | {N.txt(node)}
-                if want == 'presence_node':
-                    return any('server_presence(' in t for t in texts)
-                return any(t.endswith(want) or 'path.placement(' in t
-                           for t in texts)
-    return False
+    reads = []
+    graph = C.CFG(func.node.body, func)
+    rdefs = K.reaching_defs(graph)
+    sites = [n for n in graph.nodes if n.kind == 'stmt' and
+             isinstance(n.ast, ast.Assign) and n.ast.value is value]
+    if not sites:
+        return False
+    for site in sites:
+        dnodes = rdefs.get(site, {}).get(meta, ())
+        if not dnodes:
+            return False
+        for dnode in dnodes:
+            sub = dnode.ast
+            tgt = sub.targets[0] if isinstance(sub, ast.Assign) and \
+                len(sub.targets) == 1 else None
+            if not (isinstance(tgt, ast.Tuple) and len(tgt.elts) == 2 and
+                    N.txt(tgt.elts[1]) == meta and
+                    isinstance(sub.value, ast.Call) and
+                    K.is_meth(sub.value, 'get_with_metadata') and
+                    sub.value.args):
+                return False
+            reads.append(sub.value.args[0])
+    if not reads:
+        return False
+    for node in reads:
+        leaves = [node] if not isinstance(node, ast.Name) else \
+            M.leaf_defs(defs, node.id) or [node]
+        texts = set(N.txt(v) for v in leaves) | {N.txt(node)}
+        if want == 'presence_node':
+            if not any('server_presence(' in t for t in texts):
+                return False
+        elif not any(t.endswith(want) or 'path.placement(' in t
+                     for t in texts):
+            return False
+    return True
 
 
 def _load_everything(ctx, loader):
@@ -604,6 +608,33 @@ def _recorded_topology(ctx, loader):
                'a bucket whose record names a parent is attached to it on '
                'every path', path=K.describe(skip) if skip else None,
                construct='bucket attached to its recorded parent')
+    # a partition is registered under the label it carries: allocations are
+    # created with the label of the partition they are looked up under, and
+    # a placement is restored only on a server that has that label
+    lp = [f for f in loader.live_methods() if any(
+        isinstance(sub, ast.Assign) and
+        isinstance(sub.targets[0], ast.Subscript) and
+        N.txt(sub.targets[0].value).endswith('.partitions') and
+        isinstance(sub.value, ast.Call) and
+        K.callee_text(sub.value).endswith('Partition')
+        for sub in K.walk_no_nested(f.node))]
+    ctx.require(lp, 'registration of a partition in the loader',
+                rule='C11.1')
+    for func in lp:
+        for sub in K.walk_no_nested(func.node):
+            if not (isinstance(sub, ast.Assign) and
+                    isinstance(sub.targets[0], ast.Subscript) and
+                    N.txt(sub.targets[0].value).endswith('.partitions') and
+                    isinstance(sub.value, ast.Call) and
+                    K.callee_text(sub.value).endswith('Partition')):
+                continue
+            key = K.rtxt(func, sub.targets[0].slice)
+            label = K.kwarg(sub.value, 'label')
+            ltxt = K.rtxt(func, label) if label is not None else None
+            ctx.ob('C11.1', func, sub, ltxt == key,
+                   'a partition is registered under the label it carries '
+                   '(key %s, label %s)' % (key, ltxt),
+                   construct='partition key = label')
     cs = loader.methods.get('create_server')
     ctx.require(cs is not None, 'Loader.create_server', rule='C11.1')
     cgraph = ctx.cfg(cs)
